@@ -188,6 +188,9 @@ func (o *oracleC09) after(c *stepCtx) *ViolationRec {
 		}
 		o.cnt["operand_images_checked"]++
 	}
+	if c.res.Foreign != "" {
+		return fail("operand-modified", "the math/big operand of %s changed: %s", op.Name, c.res.Foreign)
+	}
 	if op.Z < 0 || !opInfo[op.Name].writes || c.res.Skipped {
 		return nil
 	}
